@@ -1,6 +1,7 @@
 import Driver.Proto
 import AdaptaVerif.Model.Frame
 import AdaptaVerif.Num.Sqrt
+import AdaptaVerif.Gen.Comparators
 /-!
 Driver mode c20 (runtime half of C20).  The harness ran the same API calls twice ("A", "B") — on
 equal inputs with heap perturbation in between (`*-twice`, `removeoverlaps-coincident`), or on an
@@ -259,6 +260,60 @@ def checkVpscFrame (c : Case) (translate : Bool) : CaseResult := Id.run do
   return { verdict := .ok, nontrivial := moved > 0,
            stats := [("values.compared", n), (what ++ ".rounded", rounded), ("vpsc.vars.moved.by.constraints", moved)] }
 
+
+/-! ### comparators (class `cmp`): the real `operator<` / `operator()` vs the comparator GENERATED from the same
+source by cpp2lean (Gen/Comparators.lean; proved strict weak orders in Props/C20Tie, C11Tie, C06Tie) -/
+
+open AdaptaVerif.Gen.Comparators AdaptaVerif.Model.CmpKeys in
+def checkCmp (c : Case) : CaseResult := Id.run do
+  let mut n := 0
+  let mut ties := 0
+  let mut kinds : List (String × Nat) := []
+  for l in c.get "cmp" do
+    if l.size < 2 then return { verdict := .diverge "cmp: short line" }
+    let kind := l[0]!
+    let res := l[l.size - 1]! == "1"
+    let args := l.extract 1 (l.size - 1)
+    let q (i : Nat) : Rat := (num? (args[i]?.getD "0")).getD 0
+    let u (i : Nat) : Nat := nat! (args[i]?.getD "0")
+    let z (i : Nat) : Int := int! (args[i]?.getD "0")
+    let bad := args.any (fun t => (num? t).isNone)
+    if bad then return { verdict := .diverge s!"cmp {kind}: non-finite or malformed key {args}" }
+    -- (a < b) and (b < a) as the generated comparator computes them
+    let (model, rev) : Bool × Bool :=
+      if kind == "pt" then
+        let a : Pt := ⟨q 0, q 1⟩; let b : Pt := ⟨q 2, q 3⟩
+        (pointLt b a, pointLt a b)
+      else if kind == "vid" then
+        let a : VertIdKey := ⟨u 0, u 1⟩; let b : VertIdKey := ⟨u 2, u 3⟩
+        (vertIdLt b a, vertIdLt a b)
+      else if kind == "sp" then
+        let a : ShapePairKey := ⟨u 0, u 1⟩; let b : ShapePairKey := ⟨u 2, u 3⟩
+        (shapePairLt b a, shapePairLt a b)
+      else if kind == "pin" then
+        let a : PinKey := ⟨u 0, u 1, u 2, q 3, q 4, q 5, 0⟩; let b : PinKey := ⟨u 6, u 7, u 8, q 9, q 10, q 11, 0⟩
+        (pinLt b a, pinLt a b)
+      else if kind == "act" then
+        let a : ActKey := ⟨u 0, 0, u 1, u 1⟩; let b : ActKey := ⟨u 2, 0, u 3, u 3⟩
+        (actionLt b a, actionLt a b)
+      else if kind == "cc" then
+        -- `left->block == right->block` is transmitted as a flag: equal addresses 1/1, different 1/2
+        let a : ConKey := ⟨z 0, z 1, 1, if u 2 == 1 then 1 else 2, q 3, z 4, z 5⟩
+        let b : ConKey := ⟨z 6, z 7, 1, if u 8 == 1 then 1 else 2, q 9, z 10, z 11⟩
+        (compareConstraints a b, compareConstraints b a)
+      else (res, false)
+    if !(["pt", "vid", "sp", "pin", "act", "cc"].contains kind) then
+      return { verdict := .diverge s!"cmp: unknown kind {kind}" }
+    if model != res then
+      return { verdict := .specfail s!"comparator {kind}: the C++ returns {res} on keys {args} but the comparator generated from the source returns {model}" }
+    if model && rev then
+      return { verdict := .specfail s!"comparator {kind}: not asymmetric on keys {args}" }
+    n := n + 1
+    if !model && !rev then ties := ties + 1
+    kinds := bumpStats kinds ("cmp." ++ kind) 1
+  return { verdict := .ok, nontrivial := n > 0 && ties > 0,
+           stats := [("cmp.comparisons", n), ("cmp.ties", ties)] ++ kinds }
+
 def run (_args : List String) : IO UInt32 :=
   runCases (fun c =>
     if c.tag == "route-twice" then checkTwice c "not reproducible (route)"
@@ -292,6 +347,7 @@ def run (_args : List String) : IO UInt32 :=
       | _ => r
     else if c.tag == "vpsc-translate" then checkVpscFrame c true
     else if c.tag == "vpsc-permute" then checkVpscFrame c false
+    else if c.tag == "cmp" then checkCmp c
     else { verdict := .diverge s!"unknown case tag {c.tag}" }) (maxSamples := 4)
 
 end Driver.C20
